@@ -343,7 +343,9 @@ impl Display for WeekDayRange {
                     write!(f, "-{}", wday_str(*range.end()))?;
                 }
 
-                if nth_from_start.contains(&false) || nth_from_end.contains(&false) {
+                // A day offset can only be written after the positions (`Mo[1-5,-1,-2,-3,-4,-5] +1 day`):
+                // they are then listed even if they are all set.
+                if nth_from_start.contains(&false) || nth_from_end.contains(&false) || *offset != 0 {
                     let pos_weeknum_iter = nth_from_start
                         .iter()
                         .enumerate()
